@@ -110,7 +110,7 @@ func smallScenarios() []smallScenario {
 	for _, l := range []string{"1 readfile " + h("/f"), "1 readfile " + h("/../x"), "1 chdir " + h("/s"), "1 getwd", "1 mkdir " + h("n") + " 493", "0 chdir " + h("/d/s"), "0 getwd",
 		"1 setuser 1001 1001 0", "1 setumask 63", "0 mkdir " + h("/d/m") + " 511", "1 writefile " + h("w") + " " + h("W") + " 420", "0 rename " + h("/d") + " " + h("/e"),
 		"1 stat " + h("/"), "1 sub " + h("s"), "2 readdir " + h("/"), "1 remove " + h("/f"), "0 writefile " + h("/d/s/y") + " " + h("Y") + " 420", "2 readfile " + h("/y"),
-		"1 rename " + h("/s") + " " + h("/t"), "0 setumask 0", "1 readdir " + h(".")} {
+		"1 rename " + h("/s") + " " + h("/t"), "0 setumask 0", "1 readdir " + h("."), "1 sub " + h("/s"), "0 sub " + h("/d/s")} {
 		vwAlpha = append(vwAlpha, "@"+l)
 	}
 	return []smallScenario{
